@@ -31,11 +31,15 @@ func baseConfig(r *rng) *system.Config {
 func smallStep(w *world) int64 { return int64(pick(w.r, []int{0, 0, 1, 1, 1, 2, 3})) }
 
 func key(r *rng) *idempotency.Key {
-	switch r.intn(3) {
+	// "k1" and "K1" are different keys that are equal under case folding
+	switch r.intn(4) {
 	case 0:
 		return nil
 	case 1:
 		k := idempotency.Key("k1")
+		return &k
+	case 2:
+		k := idempotency.Key("K1")
 		return &k
 	default:
 		k := idempotency.Key("k2")
